@@ -170,9 +170,10 @@ static ares_status_t init_by_defaults(ares_channel_t *channel)
     }
   }
 
-  if (channel->ndomains == 0) {
+  if (channel->ndomains == 0 && !(channel->optmask & ARES_OPT_DOMAINS)) {
     /* Derive a default domain search list from the kernel hostname,
-     * or set it to empty if the hostname isn't helpful.
+     * or set it to empty if the hostname isn't helpful.  Not if the
+     * application explicitly passed a (possibly empty) list of domains.
      */
 #ifndef HAVE_GETHOSTNAME
     channel->ndomains = 0; /* default to none */
